@@ -34,12 +34,13 @@
 
 static KSI_CTX g_ctx;
 static KSI_AsyncClient g_c;
-static KSI_AsyncHandle g_h[ASYNC_INV_MAXN], g_conf;
-static struct KSI_AggregationReq_st g_areq[ASYNC_INV_MAXN]; static struct KSI_ExtendReq_st g_ereq[ASYNC_INV_MAXN];
-static struct ad_resp g_oldresp[ASYNC_INV_MAXN];          /* the response a finished handle already holds */
+static KSI_AsyncHandle g_h1, g_h2, g_conf;      /* separate objects (a handle array costs byte-level updates through handle pointers) */
+static struct KSI_AggregationReq_st g_areq[3]; static struct KSI_ExtendReq_st g_ereq[3];
+static ad_resp_t g_oldresp1, g_oldresp2;          /* the response a finished handle already holds */
 
-static void mk_handle(KSI_AsyncHandle *h, int i) {
-	memset(h, 0, sizeof(*h));
+static const KSI_AsyncHandle g_zero_handle;
+static void mk_handle(KSI_AsyncHandle *h, int i, ad_resp_t *oldresp) {
+	*h = g_zero_handle;
 	h->ctx = &g_ctx; h->ref = nondet_size(); h->id = nondet_ull(); h->state = nondet_int();
 	h->err = nondet_int(); h->errExt = nondet_int(); h->parentId = nondet_size();
 #ifdef AD_EXT
@@ -47,8 +48,8 @@ static void mk_handle(KSI_AsyncHandle *h, int i) {
 #else
 	h->aggrReq = &g_areq[i];
 #endif
-	g_oldresp[i].k = -1; g_oldresp[i].refs = 1;
-	if (nondet_bool()) { h->respCtx = &g_oldresp[i]; h->respCtx_free = AD_RESP_FREE; }
+	oldresp->k = -1; oldresp->refs = 1;
+	if (nondet_bool()) { h->respCtx = oldresp; h->respCtx_free = AD_RESP_FREE; }
 }
 /* HInv: a cached request handle holds a response exactly when it is in state RESPONSE_RECEIVED (handleResponse stores it,
  * addRequest clears it: C13.add_request_*), and a handle that waits carries no error message */
@@ -64,19 +65,16 @@ static int confinv(const KSI_AsyncHandle *h) {
 }
 static int mk_client(void) {
 	size_t N = AC_N;
-	memset(&g_c, 0, sizeof(g_c));
 	g_ctx.asyncHandleRecycle = NULL;
 	g_c.ctx = &g_ctx;
 	g_c.reqCache = malloc(N * sizeof(KSI_AsyncHandle *));
 	if (g_c.reqCache == NULL) return 0;
 	g_c.reqCache[0] = NULL;
-	mk_handle(&g_h[1], 1); mk_handle(&g_h[2], 2); mk_handle(&g_h[3], 3); mk_handle(&g_h[4], 4);
-	if (1 < N) g_c.reqCache[1] = nondet_bool() ? NULL : &g_h[1];
-	if (2 < N) g_c.reqCache[2] = nondet_bool() ? NULL : &g_h[2];
-	if (3 < N) g_c.reqCache[3] = nondet_bool() ? NULL : &g_h[3];
-	if (4 < N) g_c.reqCache[4] = nondet_bool() ? NULL : &g_h[4];
+	mk_handle(&g_h1, 1, &g_oldresp1); mk_handle(&g_h2, 2, &g_oldresp2);
+	if (1 < N) g_c.reqCache[1] = nondet_bool() ? NULL : &g_h1;
+	if (2 < N) g_c.reqCache[2] = nondet_bool() ? NULL : &g_h2;
 	/* configuration handle: with or without request, with or without an earlier configuration */
-	memset(&g_conf, 0, sizeof(g_conf));
+	g_conf = g_zero_handle;
 	g_conf.ctx = &g_ctx; g_conf.ref = nondet_size(); g_conf.id = nondet_ull(); g_conf.state = nondet_int(); g_conf.err = nondet_int(); g_conf.errExt = nondet_int();
 	if (nondet_bool()) {
 #ifdef AD_EXT
@@ -100,40 +98,40 @@ static int mk_client(void) {
 
 /* ---- snapshot and frame ---- */
 static KSI_AsyncClient c0;
-static KSI_AsyncHandle *cache0[ASYNC_INV_MAXN];
-static KSI_AsyncHandle h0[ASYNC_INV_MAXN], conf0;
+static KSI_AsyncHandle *cache01, *cache02;
+static KSI_AsyncHandle h01, h02, conf0;
 static void snapshot(void) {
-	c0 = g_c; cache0[0] = NULL;
-	cache0[1] = 1 < AC_N ? g_c.reqCache[1] : NULL; cache0[2] = 2 < AC_N ? g_c.reqCache[2] : NULL;
-	cache0[3] = 3 < AC_N ? g_c.reqCache[3] : NULL; cache0[4] = 4 < AC_N ? g_c.reqCache[4] : NULL;
-	h0[1] = g_h[1]; h0[2] = g_h[2]; h0[3] = g_h[3]; h0[4] = g_h[4]; conf0 = g_conf;
+	c0 = g_c;
+	cache01 = 1 < AC_N ? g_c.reqCache[1] : NULL; cache02 = 2 < AC_N ? g_c.reqCache[2] : NULL;
+	h01 = g_h1; h02 = g_h2; conf0 = g_conf;
 }
 static int same_handle(const KSI_AsyncHandle *a, const KSI_AsyncHandle *b) {
 	return a->state == b->state && a->err == b->err && a->errExt == b->errExt && a->errMsg == b->errMsg && a->id == b->id &&
 			a->respCtx == b->respCtx && a->respCtx_free == b->respCtx_free && a->ref == b->ref && a->raw == b->raw && a->aggrReq == b->aggrReq && a->extReq == b->extReq;
 }
-static int slot_same(size_t i) { return i >= AC_N || g_c.reqCache[i] == cache0[i]; }
+static int slot_same(size_t i) { return i >= AC_N || g_c.reqCache[i] == (i == 1 ? cache01 : cache02); }
 
 /* item k is an authentic reply to the request of handle snapshot b: own full id, verified against b's request */
 static int answers(int k, const KSI_AsyncHandle *b) {
-	return ad_authentic(k) && g_ad.it[k].has_resp && g_ad.it[k].handled && (g_ad.it[k].has_rid ? g_ad.it[k].rid.value : 0) == b->id &&
-			g_ad.it[k].vwr_calls == 1 && g_ad.it[k].vwr_res == KSI_OK && g_ad.it[k].vwr_req == AD_REQ(b);
+	const struct ad_item *it = AD_IT(k);
+	return ad_authentic(k) && it->has_resp && it->resp.handled && (it->has_rid ? it->rid.value : 0) == b->id &&
+			it->resp.vwr_calls == 1 && it->resp.vwr_res == KSI_OK && it->resp.vwr_req == AD_REQ(b);
 }
-static int item_conv(int k) { return ad_conv(g_ad.it[k].has_status ? &g_ad.it[k].status : NULL); }
-static long item_ext(int k) { return (long)(g_ad.it[k].has_status ? g_ad.it[k].status.value : 0); }
+static int item_conv(int k) { return ad_conv(AD_IT(k)->has_status ? &AD_IT(k)->status : NULL); }
+static long item_ext(int k) { return (long)(AD_IT(k)->has_status ? AD_IT(k)->status.value : 0); }
 /* handle `now` (was `was`, waiting for a response) was completed by item k */
 static int completed_by(const KSI_AsyncHandle *now, const KSI_AsyncHandle *was, int k) {
-	return answers(k, was) && item_conv(k) == KSI_OK && now->state == KSI_ASYNC_STATE_RESPONSE_RECEIVED && now->respCtx == (void *)&g_ad.it[k].resp &&
-			now->respCtx_free == AD_RESP_FREE && g_ad.it[k].resp_delivered == 1 && g_ad.it[k].resp.refs >= 1;
+	return answers(k, was) && item_conv(k) == KSI_OK && now->state == KSI_ASYNC_STATE_RESPONSE_RECEIVED && now->respCtx == (void *)&AD_IT(k)->resp &&
+			now->respCtx_free == AD_RESP_FREE && AD_IT(k)->resp.delivered == 1 && AD_IT(k)->resp.refs >= 1;
 }
 static int failed_by_status(const KSI_AsyncHandle *now, const KSI_AsyncHandle *was, int k) {
 	return answers(k, was) && item_conv(k) != KSI_OK && now->state == KSI_ASYNC_STATE_ERROR && now->err == item_conv(k) && now->errExt == item_ext(k) &&
-			now->respCtx == NULL && g_ad.it[k].resp_delivered == 0;
+			now->respCtx == NULL && AD_IT(k)->resp.delivered == 0;
 }
 static int failed_by_error_pdu(const KSI_AsyncHandle *now, int res) {
 	int k = g_ad.last_err;
-	return res == KSI_OK && g_ad.err_seen && k >= 0 && k < AD_MAXQ && g_ad.it[k].parsed && g_ad.it[k].has_error && now->state == KSI_ASYNC_STATE_ERROR &&
-			now->err == ad_conv(&g_ad.it[k].err_status) && now->errExt == (long)g_ad.it[k].err_status.value && now->errMsg == g_ad.it[k].err.errorMsg;
+	return res == KSI_OK && g_ad.err_seen && k >= 0 && k < AD_MAXQ && AD_IT(k)->parsed && AD_IT(k)->has_error && now->state == KSI_ASYNC_STATE_ERROR &&
+			now->err == ad_conv(&AD_IT(k)->err_status) && now->errExt == (long)AD_IT(k)->err_status.value && now->errMsg == AD_IT(k)->err.errorMsg;
 }
 /* the transition of one cached request handle is one the property allows */
 static int handle_step_ok(const KSI_AsyncHandle *now, const KSI_AsyncHandle *was, int res) {
@@ -146,19 +144,19 @@ static int handle_step_ok(const KSI_AsyncHandle *now, const KSI_AsyncHandle *was
 }
 /* consumption / ownership of item k at exit */
 static int item_released(int k) {
-	const struct ad_item *it = &g_ad.it[k];
-	if (!it->handed_out) return it->parse_calls == 0 && it->os_free == 0 && it->pdu_free == 0 && it->verify_calls == 0;
-	return it->os_free == 1 && it->extract_calls == 1 && it->parse_calls <= 1 && it->verify_calls <= 1 && it->pdu_free == (it->parsed ? 1 : 0) &&
-			IMPLIES(it->parsed, it->err.refs == 0 && it->resp.refs == (it->resp_delivered ? 1 : 0) && it->resp_delivered <= 1 && it->handled <= 1 &&
-				it->conf.refs == ((g_c.serverConf != NULL && g_c.serverConf->respCtx == (void *)&it->conf) ? 1 : 0) && it->conf_delivered + it->cb_calls <= 1);
+	const struct ad_item *it = AD_IT(k);
+	if (!it->handed_out) return it->parse_calls == 0 && it->os.freed == 0;
+	return it->os.freed == 1 && it->os.extract_calls == 1 && it->parse_calls <= 1 && IMPLIES(!it->parsed, it->parse_calls == 0 || it->parse_res != KSI_OK) &&
+			IMPLIES(it->parsed, it->pdu.freed == 1 && it->pdu.verify_calls <= 1 && it->err.refs == 0 && it->resp.refs == (it->resp.delivered ? 1 : 0) && it->resp.delivered <= 1 && it->resp.handled <= 1 &&
+				it->conf.refs == ((g_c.serverConf != NULL && g_c.serverConf->respCtx == (void *)&it->conf) ? 1 : 0) && it->conf.delivered + it->conf.cb_calls <= 1);
 }
 static int item_consistent(int k, int res) {
-	const struct ad_item *it = &g_ad.it[k];
+	const struct ad_item *it = AD_IT(k);
 	return IMPLIES(it->handed_out && it->parse_calls == 1, it->parse_ctx == &g_ctx && it->parse_raw == &it->byte0 && it->parse_len == it->os.len) &&
-			IMPLIES(it->verify_calls == 1, it->parsed && !it->has_error && it->verify_key == g_ad_key) &&
-			IMPLIES(it->handled || it->resp_delivered || it->conf_delivered || it->cb_calls, ad_authentic(k)) &&
-			IMPLIES(it->handed_out && res == KSI_OK, it->parsed && (it->has_error ? (it->detach_calls == 1 && it->verify_calls == 0) : ad_authentic(k))) &&
-			IMPLIES(it->parsed && it->has_error, !it->handled && !it->resp_delivered && !it->conf_delivered && !it->cb_calls);
+			IMPLIES(it->parsed && it->pdu.verify_calls == 1, !it->has_error && it->pdu.verify_key == g_ad_key) &&
+			IMPLIES(it->parsed && (it->resp.handled || it->resp.delivered || it->conf.delivered || it->conf.cb_calls), ad_authentic(k)) &&
+			IMPLIES(it->handed_out && res == KSI_OK, it->parsed && (it->has_error ? (it->pdu.detach_calls == 1 && it->pdu.verify_calls == 0) : ad_authentic(k))) &&
+			IMPLIES(it->parsed && it->has_error, !it->resp.handled && !it->resp.delivered && !it->conf.delivered && !it->conf.cb_calls);
 }
 
 void harness(void) {
@@ -166,7 +164,7 @@ void harness(void) {
 	__CPROVER_assert(KSI_ASYNC_CACHE_START_POS == 1, "cache geometry");
 	if (!mk_client()) return;
 	__CPROVER_assume(ainv_inv(&g_c));                                  /* induction hypothesis (C13) */
-	__CPROVER_assume(hinv(&g_h[1]) && hinv(&g_h[2]) && hinv(&g_h[3]) && hinv(&g_h[4]) && confinv(g_c.serverConf));
+	__CPROVER_assume(hinv(&g_h1) && hinv(&g_h2) && confinv(g_c.serverConf));
 	snapshot();
 
 	res = AD_PROCESS(&g_c);
@@ -182,10 +180,10 @@ void harness(void) {
 			"queue: every byte string handed out is parsed at most once and released exactly once; its PDU, error element, undelivered response and configuration are released exactly once; a delivered object stays alive");
 	/* ---- C13: what happens to the cached requests ---- */
 	__CPROVER_assert(ainv_inv(&g_c), "queue: Inv(c) is preserved (on every return path)");
-	__CPROVER_assert(slot_same(1) && slot_same(2) && slot_same(3) && slot_same(4), "queue: no slot is emptied or filled");
-	__CPROVER_assert(IMPLIES(cache0[1] != NULL, handle_step_ok(&g_h[1], &h0[1], res)) && IMPLIES(cache0[2] != NULL, handle_step_ok(&g_h[2], &h0[2], res)),
+	__CPROVER_assert(slot_same(1) && slot_same(2), "queue: no slot is emptied or filled");
+	__CPROVER_assert(IMPLIES(cache01 != NULL, handle_step_ok(&g_h1, &h01, res)) && IMPLIES(cache02 != NULL, handle_step_ok(&g_h2, &h02, res)),
 			"queue: a cached request changes only if it waited for a response: completed by an AUTHENTIC status-zero reply bearing its own id and verified against its request, failed by such a reply with non-zero status, or failed by an error PDU (after the whole queue was processed); otherwise untouched");
-	__CPROVER_assert(IMPLIES(cache0[1] == NULL, same_handle(&g_h[1], &h0[1])) && IMPLIES(cache0[2] == NULL, same_handle(&g_h[2], &h0[2])) && same_handle(&g_h[3], &h0[3]) && same_handle(&g_h[4], &h0[4]),
+	__CPROVER_assert(IMPLIES(cache01 == NULL, same_handle(&g_h1, &h01)) && IMPLIES(cache02 == NULL, same_handle(&g_h2, &h02)),
 			"queue: handles outside the cache are untouched");
 	__CPROVER_assert(g_ad.oldresp_free == 0, "queue: a response already delivered is never released");
 	/* ---- configuration ---- */
@@ -195,8 +193,8 @@ void harness(void) {
 			"queue: a cached configuration handle stays cached");
 	__CPROVER_assert(IMPLIES(nc != NULL && (c0.serverConf == NULL || nc->respCtx != conf0.respCtx),
 			nc->state == KSI_ASYNC_STATE_PUSH_CONFIG_RECEIVED && nc->respCtx_free == (void (*)(void *))KSI_Config_free &&
-			((nc->respCtx == (void *)&g_ad.it[0].conf && ad_authentic(0) && g_ad.it[0].has_conf) || (nc->respCtx == (void *)&g_ad.it[1].conf && ad_authentic(1) && g_ad.it[1].has_conf) ||
-			 (nc->respCtx == (void *)&g_ad.it[2].conf && ad_authentic(2) && g_ad.it[2].has_conf))),
+			((nc->respCtx == (void *)&g_ad_it0.conf && ad_authentic(0) && g_ad_it0.has_conf) || (nc->respCtx == (void *)&g_ad_it1.conf && ad_authentic(1) && g_ad_it1.has_conf) ||
+			 (nc->respCtx == (void *)&g_ad_it2.conf && ad_authentic(2) && g_ad_it2.has_conf))),
 			"queue: the configuration a handle holds after the call is the configuration element of an AUTHENTIC pdu");
 	__CPROVER_assert(g_ad.oldconf_free == ((c0.serverConf != NULL && conf0.respCtx != NULL && nc->respCtx != conf0.respCtx) ? 1 : 0), "queue: a replaced configuration is released exactly once, a kept one never");
 	__CPROVER_assert(IMPLIES(c0.serverConf != NULL && nc->respCtx == conf0.respCtx && nc->state != conf0.state,
@@ -206,19 +204,19 @@ void harness(void) {
 			"queue: a call-back runs only for an unrequested configuration, when enabled; the client's own call-back takes precedence over the context's");
 
 	REACH("returns");
-	if (res == KSI_OK && g_ad.n_out == 3 && g_ad.it[2].resp_delivered) REACH("three byte strings, the third delivered");
-	if (res == KSI_OK && g_ad.get_calls == 3 && !g_ad.it[0].handed_out && g_ad.it[2].resp_delivered) REACH("nothing at the first call, a reply at the third");
-	if (res == KSI_OK && g_ad.it[0].resp_delivered && g_ad.it[1].resp_delivered) REACH("two requests completed in one call");
-	if (res == KSI_OK && g_ad.err_seen && cache0[1] != NULL && h0[1].state == KSI_ASYNC_STATE_WAITING_FOR_RESPONSE && g_h[1].state == KSI_ASYNC_STATE_ERROR) REACH("error PDU fails a waiting request");
-	if (res == KSI_OK && g_ad.err_seen && g_ad.last_err == 0 && g_ad.it[1].resp_delivered) REACH("error PDU first, a valid reply after it is still delivered");
-	if (res != KSI_OK && g_ad.it[0].verify_calls == 1 && g_ad.it[0].verify_res != KSI_OK) REACH("MAC verification failed");
-	if (res != KSI_OK && g_ad.it[1].parse_calls == 1 && !g_ad.it[1].parsed && g_ad.it[0].resp_delivered) REACH("second byte string malformed after a delivered first");
-	if (res == KSI_OK && cache0[1] != NULL && g_h[1].state == KSI_ASYNC_STATE_ERROR && h0[1].state == KSI_ASYNC_STATE_WAITING_FOR_RESPONSE && !g_ad.err_seen) REACH("non-zero status fails the request");
+	if (res == KSI_OK && g_ad.n_out == 3 && g_ad_it2.resp.delivered) REACH("three byte strings, the third delivered");
+	if (res == KSI_OK && g_ad.get_calls == 3 && !g_ad_it0.handed_out && g_ad_it2.resp.delivered) REACH("nothing at the first call, a reply at the third");
+	if (res == KSI_OK && g_ad_it0.resp.delivered && g_ad_it1.resp.delivered) REACH("two requests completed in one call");
+	if (res == KSI_OK && g_ad.err_seen && cache01 != NULL && h01.state == KSI_ASYNC_STATE_WAITING_FOR_RESPONSE && g_h1.state == KSI_ASYNC_STATE_ERROR) REACH("error PDU fails a waiting request");
+	if (res == KSI_OK && g_ad.err_seen && g_ad.last_err == 0 && g_ad_it1.resp.delivered) REACH("error PDU first, a valid reply after it is still delivered");
+	if (res != KSI_OK && g_ad_it0.pdu.verify_calls == 1 && g_ad_it0.pdu.verify_res != KSI_OK) REACH("MAC verification failed");
+	if (res != KSI_OK && g_ad_it1.parse_calls == 1 && !g_ad_it1.parsed && g_ad_it0.resp.delivered) REACH("second byte string malformed after a delivered first");
+	if (res == KSI_OK && cache01 != NULL && g_h1.state == KSI_ASYNC_STATE_ERROR && h01.state == KSI_ASYNC_STATE_WAITING_FOR_RESPONSE && !g_ad.err_seen) REACH("non-zero status fails the request");
 	if (res == KSI_OK && g_ad.cb_ctx) REACH("pushed configuration given to the context call-back");
 	if (res == KSI_OK && g_ad.cb_client) REACH("pushed configuration given to the client call-back");
 	if (res == KSI_OK && c0.serverConf == NULL && nc != NULL) REACH("handle created for a pushed configuration");
 	if (res == KSI_OK && c0.serverConf != NULL && conf0.respCtx == NULL && nc->respCtx != NULL) REACH("requested configuration received");
 	if (res == KSI_OK && g_ad.oldconf_free == 1) REACH("configuration renewed");
-	if (res == KSI_OK && g_ad.it[0].handled && !g_ad.it[0].resp_delivered && g_ad.it[0].vwr_calls == 0) REACH("reply with unknown id ignored");
+	if (res == KSI_OK && g_ad_it0.resp.handled && !g_ad_it0.resp.delivered && g_ad_it0.resp.vwr_calls == 0) REACH("reply with unknown id ignored");
 	if (res == KSI_OK && g_ad.get_calls == 2 && g_ad.n_out == 0) REACH("transport reports more but hands out nothing");
 }
